@@ -194,6 +194,16 @@ Definition finish (th : thread) : thread :=
 Definition fast (s : shared) (th : thread) : thread :=
   finish (Th (t_op th) (t_pc th) (t_i th) (t_gen th) (consume (t_op th) (cache s)) (t_res th)).
 
+(* fast path of the query method itself (PQTest).  It is the consumer loop over the list
+   `self._cache` for every query except __contains__, which is `item in self._cache`. *)
+Definition fastq (s : shared) (th : thread) : thread :=
+  match t_op th with
+  | OContains x =>
+      Th (t_op th) PDone (t_i th) (t_gen th) (t_out th)
+         (Some (Ret [if existsb (Z.eqb x) (cache s) then 1 else 0]))
+  | _ => fast s th
+  end.
+
 (* `yield cache[i]`, continuing at `nxt` when the consumer calls next() again *)
 Definition do_yield (s : shared) (th : thread) (nxt : pc) : thread :=
   match nth_error (cache s) (t_i th) with
@@ -210,7 +220,7 @@ Variable fixed : bool.
 (* one line of thread `t`; None = blocked in acquire() (or the thread is done) *)
 Definition step_thread (s : shared) (t : nat) (th : thread) : option (shared * thread) :=
   match t_pc th with
-  | PQTest => Some (s, if complete s then fast s th else set_pc th PIterTest)
+  | PQTest => Some (s, if complete s then fastq s th else set_pc th PIterTest)
   | PLenTest => Some (s, match lenp s with Some _ => set_pc th PRetLen | None => set_pc th PIterTest end)
   | PIterTest =>
       Some (s, if complete s then fast s th
